@@ -203,7 +203,7 @@ def gen_table(eng, nmax, two_param=False, fixed_n=None, vary_bounds=True, fix=No
         ext = [int(bool(eng.fresh_bool('ext'))) for _ in range(univ.n_ext_bits(n))]
     gv = sel('gvar', 0, 2)
     gb = sel('gbound', 0, 1) if vary_bounds else 0
-    gs = [dict(name='G', params=[('X', gv, ('cls', 0) if gb else None)], sup=('any',))]
+    gs = [dict(name='G', params=[('X', gv, ('cls', 0) if gb else None)], sup=('cls', 0) if fix.get('gsup') else ('any',))]
     if not two_param:
         hv = sel('hvar', 0, 2)
         hb = sel('hbound', 0, 1) if vary_bounds else 0
